@@ -93,6 +93,12 @@ CHECKS["C05"] = dict(
   technique="Lean 4 proof (stream identity over layered replay buffers + timed relay state machine) + regenerated deadline-path table (go/ast) + differential correspondence (go test -overlay, synctest, loopback TCP)",
   design="§10 C05")
 
+CHECKS["C17"] = dict(
+  text="Lean theorems: a total lexer + LL(2) parser + Walker for the dae grammar (character classes probed from the real ANTLR lexer on every run and checked against the WF hypothesis): every text is rejected or parsed (parse_total), token sequences and trees correspond one-to-one and in order (tokens_iff_tree, parse_spells), parse(render cfg) = cfg for any quoting style and any whitespace/comments between tokens (parse_render), one AST item per written item with names, negations and parameters in order; include merging over an abstract file system: including file first then each include in listed order depth-first (merge_order), any edge to a visited file incl. every cycle is rejected before opening, every path opened ends in .dae and lies lexically under the entry directory (merge_reads_confined); typed configuration: unknown/missing sections and keys rejected, defaults applied for present and omitted sections (defaults_applied, after fix 2aec039), oversized rule programs rejected (oversize_rejected). 'Never crashes' is decided on the Go side: Parse, config.New, Merger.Merge and the whole rule-compilation pipeline (optimizers incl. DatReader, matcher builders, dns.New — in a child process so goroutine panics are seen) run on grammar-generated texts, token-level near-misses and arbitrary bytes; any panic is a violation, accepted inputs are compared by full AST / typed-config equality with the model.",
+  note="Trusted: Lean kernel + standard axioms; the ANTLR model is reconstructed from the shipped .interp files and tied differentially; value decoders (FuzzyDecode etc.), filepath.Glob and geodata parsing are oracles / no-panic only; error messages are compared by class; merge termination is stated (merge_terminates_full) but not proved.",
+  technique="Lean 4 proof (parser/renderer round trip, merger invariants, config decoding) + differential correspondence on three input streams with crash detection (go test -overlay, child processes)",
+  design="§10 C17")
+
 def main():
     checks = []
     for pid in ALL:
